@@ -955,7 +955,7 @@ func c39GenCase(r *Rand, i int) c39Case {
 	g := &c39Gen{r: r}
 	init := c39Config{Servers: g.servers(false), Policy: r.Intn(3), Bundle: r.Intn(4), RTCPMux: r.Intn(3),
 		Identity: Pick(r, []string{"", "", "a", "b"}), Certs: Pick(r, [][]int{{}, {}, {0}, {0}, {1}, {0, 1}, {2, 0}, {4}, {6}, {7}, {8, 1}, {0, 4}, {5, 7, 0},
-			{13}, {14}, {16}, {14, 13}, {0, 13}, {0}, {13}, {14, 0}, {12}, {0, 12}, {15}}),
+			{13}, {14}, {16}, {14, 13}, {0, 13}, {0}, {13}, {14, 0}, {12}, {0, 12}, {16, 1}}),
 		Pool: Pick(r, []int{0, 0, 1}), Semantics: Pick(r, []int{0, 0, 2}), AlwaysDC: r.Chance(1, 4)}
 	c := c39Case{Init: init}
 	n := r.Range(1, 5)
